@@ -1008,12 +1008,14 @@ theorem C03_attribute_error_reaches_attribute_merge {F} (env : Env F) (strict : 
         cases h
         exact attrSev_le a sev _ hder hs
 
-/-- what the parts other than the first have reported so far (`partErrors`) is never lost by the part loop: every way out
-    of `STEPcomplex::STEPread` merges it (either merge shape of the source) -/
+/-- what the parts other than the first have reported so far (`partErrors`) is not lost by the part loop: the way out at the
+    closing parenthesis merges it (either merge shape of the source); the two early ways out - a part without `(`, a keyword
+    that is no part of the instance - return before the merge, with INPUT_ERROR or worse -/
 theorem complexLoop_perr_le {F} (env : Env F) (strict : Bool) (head : String)
     (hm : (env.cfg.complexMergesParts || env.cfg.complexMergesAttrErrors) = true) :
     ∀ (fuel : Nat) (err perr : Sev) (ps : List (MPart F)) (s : IStream) (r : CR F),
-      complexLoop env strict head fuel err perr ps s = .ok r → r.sev.toInt ≤ perr.toInt := by
+      complexLoop env strict head fuel err perr ps s = .ok r →
+      r.sev.toInt ≤ perr.toInt ∨ r.sev.toInt ≤ Sev.inputError.toInt := by
   intro fuel
   induction fuel with
   | zero => intro err perr ps s r h; simp [complexLoop] at h
@@ -1022,9 +1024,9 @@ theorem complexLoop_perr_le {F} (env : Env F) (strict : Bool) (head : String)
     unfold complexLoop at h
     simp only [hm, if_true, bind, Except.bind, pure, Except.pure] at h
     split at h
-    · cases h; exact greater_le_right _ _
+    · cases h; exact Or.inl (greater_le_right _ _)
     · split at h
-      · cases h; exact greater_le_right _ _
+      · cases h; exact Or.inr (Int.le_trans (greater_le_left _ _) (greater_le_right _ _))
       · split at h
         · rename_i ed _ _
           generalize hq : instSTEPread env strict ed.ownAttrs _ = q at h
@@ -1034,17 +1036,20 @@ theorem complexLoop_perr_le {F} (env : Env F) (strict : Bool) (head : String)
             dsimp only at h
             split at h
             · exact ih _ _ _ _ _ h
-            · exact Int.le_trans (ih _ _ _ _ _ h) (greater_le_left _ _)
-        · cases h; exact greater_le_right _ _
+            · rcases ih _ _ _ _ _ h with h1 | h1
+              · exact Or.inl (Int.le_trans h1 (greater_le_left _ _))
+              · exact Or.inr h1
+        · cases h; exact Or.inr (Int.le_trans (greater_le_left _ _) (greater_le_right _ _))
 
 /-- **a part's attributes → the externally mapped instance** (the repaired `STEPcomplex::STEPread`): at whatever point of
     the part list the reader stands (`err`, `perr`, `ps`, `s` arbitrary), when the next part is one of the instance's
     parts other than the first and `SDAI_Application_instance::STEPread` reads its parameter list with attribute merge
-    `rp.asev`, the instance's result is at least that severe — whatever parts follow.  With
-    `C03_attribute_error_reaches_attribute_merge` (attribute → `asev`) and `C03_reported_error_fails_file`
-    (`ReadInstance` hands the result to `AppendEntityErrorMsg`: `complexReportsError`) a violation in any attribute of
-    any such part fails the file.  (Attributes a sibling part derives are excepted by the source; the model's dictionary
-    does not mark them — no generated schema has one in an externally mapped combination.) -/
+    `rp.asev`, the instance's result is at least that severe - or INPUT_ERROR or worse (the early ways out) - whatever parts
+    follow; in particular worse than USERMSG when the merge is.  With `C03_attribute_error_reaches_attribute_merge`
+    (attribute → `asev`) and `C03_reported_error_fails_file` (`ReadInstance` hands the result to `AppendEntityErrorMsg`:
+    `complexReportsError`) a violation in any attribute of any such part fails the file.  (Attributes a sibling part
+    derives are excepted by the source; the model's dictionary does not mark them - no generated schema has one in an
+    externally mapped combination.) -/
 theorem C03_part_attribute_error_reaches_complex_instance {F} (env : Env F) (strict : Bool) (head : String)
     (hm : env.cfg.complexMergesAttrErrors = true) (hp : env.cfg.complexMergesParts = false)
     (fuel : Nat) (err perr : Sev) (ps : List (MPart F)) (s : IStream) (r : CR F)
@@ -1054,14 +1059,16 @@ theorem C03_part_attribute_error_reaches_complex_instance {F} (env : Env F) (str
     (p0 : MPart F) (hfind : ps.find? (·.name == nm) = some p0) (ed : EntityD) (hent : env.dict.entity? nm = some ed)
     (hne : (nm == head) = false)
     (rp : IR F) (hrd : instSTEPread env strict ed.ownAttrs ((readStdKeyword (s.peekC).2.ws).2.ws.peekC).2 = .ok rp)
-    (h : complexLoop env strict head (fuel + 1) err perr ps s = .ok r) : r.sev.toInt ≤ rp.asev.toInt := by
+    (hbad : rp.asev.toInt < Sev.usermsg.toInt)
+    (h : complexLoop env strict head (fuel + 1) err perr ps s = .ok r) : r.sev.toInt < Sev.usermsg.toInt := by
   unfold complexLoop at h
   have e41 : ((s.peekC).1 == 41) = false := by simpa using hopen
   have e40 : (((readStdKeyword (s.peekC).2.ws).2.ws.peekC).1 != 40) = false := by simp [hpar]
   subst hnm
   simp only [e41, Bool.false_eq_true, if_false, bind, Except.bind, pure, Except.pure, e40, hfind, hent, hrd, hne, hp] at h
-  have h2 := complexLoop_perr_le env strict head (by simp [hm]) _ _ _ _ _ _ h
-  exact Int.le_trans h2 (greater_le_right _ _)
+  rcases complexLoop_perr_le env strict head (by simp [hm]) _ _ _ _ _ _ h with h2 | h2
+  · exact Int.lt_of_le_of_lt (Int.le_trans h2 (greater_le_right _ _)) hbad
+  · exact Int.lt_of_le_of_lt h2 (by decide)
 
 /-! ### the hypotheses are satisfiable: a string where an INTEGER is required -/
 def exDict : Dict :=
@@ -1101,6 +1108,66 @@ theorem C03_junk_after_dollar_filler_detected {F} (env : Env F) (a : AttrD) (k :
   have h := attr_dollar_junk_filler env a k hk hopt hder hkeep (C03_source_filler_usermsg env.ops k hk') j0 js hj0s hj047 hj hsemi l sk d rest hd
   rw [hv] at h
   simpa using h
+
+/-! ### the hypotheses of the headline theorem are satisfiable: `#1=A(X);` `#2=A(5);` - a violating record before a
+    conforming one; both outcomes and exit 1 follow from `C03_violation_confined_partial` -/
+def wAttrX : AttrD := { name := "x", ty := .one .integer, optional := false }
+def wBad : Step Nat :=
+  { r := { ds := [49], s1 := [], s2 := [], n0 := 65, ns := [], s3 := [],
+           ps := [{ a := wAttrX, v := .one (.atom .unset), tok := [88], before := [], after := [] }], s4 := [] },
+    g := [10], sev := .warning,
+    out := { id := 1, parts := [{ name := "A", vals := [.one (.atom .unset)] }], state := .incomplete } }
+def wGood : Step Nat :=
+  { r := { ds := [50], s1 := [], s2 := [], n0 := 65, ns := [], s3 := [],
+           ps := [{ a := wAttrX, v := .one (.atom (.int (Grammar.denoteInteger [53]))), tok := [53], before := [], after := [] }], s4 := [] },
+    g := [10], sev := .null,
+    out := { id := 2, parts := [{ name := "A", vals := [.one (.atom (.int (Grammar.denoteInteger [53])))] }], state := .complete } }
+
+theorem C03_violation_confined_witness :
+    ∃ res, readDataSection dblOps Generated.rwLexCfg Generated.rwCfg exDict false false
+        ([10] ++ renderRecs ([wBad, wGood].map Step.rg) (endsec [] ([10] ++ (endIso ++ 59 :: [10])))) = .ok res ∧
+      res.mgr.insts = [wBad.out, wGood.out] ∧ res.reported = [Sev.null, Sev.warning] ∧ exitStatus res.sev = 1 := by
+  have sepsNil : Seps ([] : List Byte) := Seps.blanks [] (by decide)
+  have sepsNl : Seps ([10] : List Byte) := Seps.blanks [10] (by decide)
+  have hlexB : wBad.r.Lex := ⟨by decide, by decide, by decide, sepsNil, sepsNil, sepsNil, sepsNil, by decide, by decide, by decide⟩
+  have hlexG : wGood.r.Lex := ⟨by decide, by decide, by decide, sepsNil, sepsNil, sepsNil, sepsNil, by decide, by decide, by decide⟩
+  have hscanB : ∀ q ∈ wBad.r.ps, ParamScan q := by
+    intro q hq
+    simp only [wBad, List.mem_singleton] at hq
+    subst hq
+    exact ⟨(Passes.plain 88 (by decide)).toS, sepsNil, sepsNil⟩
+  have hscanG : ∀ q ∈ wGood.r.ps, ParamScan q := by
+    intro q hq
+    simp only [wGood, List.mem_singleton] at hq
+    subst hq
+    exact ⟨(Passes.plain 53 (by decide)).toS, sepsNil, sepsNil⟩
+  have hent : exDict.entity? "A" = some { name := "A", attrs := [wAttrX], ancestors := ["A"] } := by decide
+  obtain ⟨res, hr, hm, hrep, _, _, _, hex⟩ := C03_violation_confined_partial dblOps Generated.rwLexCfg Generated.rwCfg exDict false
+    (by decide) (by decide) [wBad, wGood] [10] [] [10] [10] sepsNl (by decide) sepsNl (by decide)
+    (by
+      intro x hx
+      simp only [List.mem_cons, List.mem_singleton, List.not_mem_nil, or_false] at hx
+      rcases hx with rfl | rfl
+      · exact ⟨hlexB, sepsNl, hscanB, _, hent, rfl⟩
+      · exact ⟨hlexG, sepsNl, hscanG, _, hent, rfl⟩)
+    (by
+      intro x hx
+      simp only [List.mem_cons, List.mem_singleton, List.not_mem_nil, or_false] at hx
+      rcases hx with rfl | rfl
+      · refine Or.inl ⟨hlexB, sepsNl, hscanB, [(({ a := wAttrX, v := .one (.atom .unset), tok := [88], before := [], after := [] } : Param Nat), Sev.warning)], _, rfl, ?_, hent, rfl, rfl, rfl⟩
+        intro q hq
+        simp only [List.mem_singleton] at hq
+        subst hq
+        exact C03_wrong_kind_for_integer_detected _ false wAttrX rfl rfl rfl 88 [] (by decide) (by decide) (by decide) (by decide)
+          (by decide) (by decide) (by decide) (by decide) (by intro _ b hb; simp only [List.mem_singleton] at hb; subst hb; decide)
+          [] sepsNil
+      · refine Or.inl ⟨hlexG, sepsNl, hscanG, [(({ a := wAttrX, v := .one (.atom (.int (Grammar.denoteInteger [53]))), tok := [53], before := [], after := [] } : Param Nat), Sev.null)], _, rfl, ?_, hent, rfl, rfl, rfl⟩
+        intro q hq
+        simp only [List.mem_singleton] at hq
+        subst hq
+        refine ⟨rfl, ⟨53, [], rfl, by decide, by decide, by decide⟩, sepsNil, fun l sk d rest hd => ⟨sk, Or.inl rfl, ?_⟩⟩
+        exact attr_integer _ false wAttrX rfl rfl (by decide) [53] (by decide) (by decide) (by decide) l sk [] sepsNil d rest hd)
+  exact ⟨res, hr, hm, hrep, hex ⟨wBad, by simp, by decide⟩⟩
 
 /-! ### the defect behind fixes/C03-4 and its repair on the minimal input `#1=A($1);` (lenient mode) -/
 def dollarRun (keep : Bool) : M (FileResult Nat) :=
